@@ -1,0 +1,5 @@
+//go:build !verif
+
+package ast
+
+func verifCgn(kind string) {}
